@@ -1830,3 +1830,53 @@ pub fn sct_grid(full: bool) -> Vec<W> {
     }
     v
 }
+
+/// encrypted_server_name (0xffce) over the cross product of its fields: suite x named group x key-share size x
+/// record-digest size x encrypted-SNI size
+pub fn esni_grid() -> Vec<W> {
+    let mut v = Vec::new();
+    let groups: Vec<u16> = (0x0017..=0x001e).chain(0x0100..=0x0104).chain([0x0000, 0x0a0a, 0x6399, 0x11ec, 0xffff]).collect();
+    for suite in [0x1301u16, 0x1302, 0x1303, 0x0000, 0x0a0a, 0x13f0, 0xffff] {
+        for &g in &groups {
+            for ks in [0usize, 1, 32, 33, 56, 65, 97, 133, 255, 256, 257, 348, 349, 384, 385, 512, 768, 1024] {
+                for (rd, es) in [(0usize, 0usize), (32, 0), (32, 300), (0, 1)] {
+                    v.push(ext(0xffce, |w| {
+                        w.u16(suite).u16(g);
+                        w.block(2, "esni_ks_len", |w| fill(w, ks, 1));
+                        w.block(2, "esni_rd_len", |w| fill(w, rd, 2));
+                        w.block(2, "esni_sni_len", |w| fill(w, es, 3));
+                    }));
+                }
+            }
+        }
+    }
+    v
+}
+
+/// key_share / pre_shared_key / cookie style extensions over group x size grids (opaque to the crate today, a
+/// decoder that starts validating them shows here): (type, content)
+pub fn group_size_extensions() -> Vec<W> {
+    let mut v = Vec::new();
+    let groups: Vec<u16> = (0x0017..=0x001e).chain(0x0100..=0x0104).chain([0x0000, 0x0a0a, 0x6399, 0x11ec, 0xffff]).collect();
+    for &g in &groups {
+        for ks in [0usize, 1, 32, 33, 56, 65, 97, 133, 256, 384, 1184, 1216] {
+            // server form, client form (list of one / two), HelloRetryRequest form
+            v.push(ext(51, |w| {
+                w.u16(g);
+                w.block(2, "ks_len", |w| fill(w, ks, 1));
+            }));
+            v.push(ext(51, |w| {
+                w.block(2, "ks_list", |w| {
+                    w.u16(g);
+                    w.block(2, "ks_len", |w| fill(w, ks, 1));
+                    w.u16(0x001d);
+                    w.block(2, "ks_len", |w| fill(w, 32, 2));
+                });
+            }));
+        }
+        v.push(ext(51, |w| {
+            w.u16(g);
+        }));
+    }
+    v
+}
